@@ -1,8 +1,12 @@
 (* Props/C01_src.v — source tie for C01: the Gallina definitions that harness/gen/pysrc.py regenerates on every run from the CURRENT
    text of netaddr/fbsocket.py (coq/Gen/pysrc_fbsocket_gen.v) are equal to the hand-written model of Model/FbSocket.v that the
-   theorems of Props/C01.v are about (Fb.inet_ntoa, Fb.is_hextet, Fb.inet_pton4).  Text is a Coq string; a packed IPv4 address
-   is the list of its 4 byte values in both; struct.pack('B', ..) / unpack('4B', ..) are Codec.struct_pack / struct_unpack,
-   int(token) is Base/PyStr.py_int, `char in '0123456789'` is the substring test (= contains_char for one character).
+   theorems of Props/C01.v are about (Fb.inet_ntoa, Fb.is_hextet, Fb.inet_pton4, Fb.inet_pton6).  Text is a Coq string; a packed
+   IPv4 address is the list of its 4 byte values in both; a packed IPv6 address is the list of its 16 byte values in the generated
+   code and the list of its 8 big-endian 16-bit words in the model (GenOk_Src_C01.bytes_of_words: w -> [w / 256; w mod 256]);
+   struct.pack / unpack are Codec.struct_pack / struct_unpack, int(token) / int(token, 16) is Base/PyStr.py_int,
+   `char in '0123456789'` is the substring test (= contains_char for one character), s.split('::') / '::' in s are the hand
+   models of Model/IpText.v (split_dc_chars, contains_dc_chars: validated against CPython by the c01_split_dc command).
+   inet_pton is stated for every address-family argument (AF_INET = 2, AF_INET6 = 10 are read from the module text).
    No hypotheses.  A source edit that changes one of the functions changes the generated term and this theorem stops compiling.
    Nothing but the statement closed by `exact`, followed by Print Assumptions. *)
 From Coq Require Import String.
@@ -15,7 +19,9 @@ Open Scope Z_scope.
 Theorem C01_source_tie :
   (forall o, src_fbsocket_inet_ntoa o = Fb.inet_ntoa o) /\
   (forall t, src_fbsocket__is_hextet t = Fb.is_hextet t) /\
-  (forall s, src_fbsocket__inet_pton_af_inet s = Fb.inet_pton4 s).
+  (forall s, src_fbsocket__inet_pton_af_inet s = Fb.inet_pton4 s) /\
+  (forall af s, src_fbsocket_inet_pton af s =
+                if af =? 2 then Fb.inet_pton4 s else if af =? 10 then omap bytes_of_words (Fb.inet_pton6 s) else Raise ValueError).
 Proof. exact C01_tie_fb1_ok. Qed.
 Print Assumptions C01_source_tie.
 
@@ -25,5 +31,9 @@ Example C01_src_nonvacuous :
   src_fbsocket__inet_pton_af_inet "10.0.0.255"%string = Ok [10; 0; 0; 255] /\
   src_fbsocket__inet_pton_af_inet "10.0.0.256"%string = Raise ValueError /\
   src_fbsocket__inet_pton_af_inet "10.0.0.+1"%string = Raise ValueError /\
-  src_fbsocket__is_hextet "fFfF"%string = true /\ src_fbsocket__is_hextet "0x1"%string = false.
+  src_fbsocket__is_hextet "fFfF"%string = true /\ src_fbsocket__is_hextet "0x1"%string = false /\
+  src_fbsocket_inet_pton 10 "::ffff:1.2.3.4"%string = Ok [0; 0; 0; 0; 0; 0; 0; 0; 0; 0; 255; 255; 1; 2; 3; 4] /\
+  src_fbsocket_inet_pton 10 "1:2:3:4:5:6:7:8"%string = Ok [0; 1; 0; 2; 0; 3; 0; 4; 0; 5; 0; 6; 0; 7; 0; 8] /\
+  src_fbsocket_inet_pton 10 "1::2::3"%string = Raise ValueError /\ src_fbsocket_inet_pton 10 "::+1"%string = Raise ValueError /\
+  src_fbsocket_inet_pton 3 "::"%string = Raise ValueError.
 Proof. repeat split; vm_compute; reflexivity. Qed.
